@@ -244,7 +244,7 @@ def run(p, report, tier):
     report.rule("R8.1", "index-space agreement in pool strategies: a position used to subscript, delete from or "
                 "scatter into an array lives in that array's index space (XROW rows of X, CAND positions in the "
                 "candidate list, MASK(m) positions inside a boolean-mask sub-array); only pairs where both spaces are "
-                "known are judged", floor=4)
+                "known are judged", floor=3)
     report.rule("R8.3", "positions selected over a pool that was shrunk by np.delete reach the returned indices only "
                 "through a translating subscript T[positions] (SUB -> CAND), never directly", floor=2)
     report.rule("R8.2", "after _transform_candidates the raw `candidates` parameter is read only to choose between "
